@@ -4,17 +4,19 @@ The section is the text between the marker lines <!-- S14 begin --> and <!-- S14
 import glob, json, os, re, collections
 rows, st = [], collections.Counter()
 rounds = collections.defaultdict(collections.Counter)
-for d in sorted(glob.glob('/verif/seeded/S*')):
+def _num(d):
+    return int(re.match(r'S(\d+)', os.path.basename(d)).group(1))
+for d in sorted(glob.glob('/verif/seeded/S*'), key=_num):
     m = json.load(open(os.path.join(d, 'meta.json')))
     res = m['check_result'].replace('|', '/').replace('\n', ' ')
-    n = int(m['id'][1:3])
-    rnd = 1 if n <= 28 else (2 if n <= 61 else 3)
+    n = _num(d)
+    rnd = 1 if n <= 28 else (2 if n <= 61 else (3 if n <= 94 else 4))
     first = 'missed-then-fixed' if res.startswith('MISSED') else 'caught'
     rounds[rnd][first] += 1
     rows.append("| %s | %s | %s | %s |" % (m['id'], m['breaks_property'], m['needs_to_manifest'].replace('|', '/'), res))
 head = """## 14. Seeded changes: which check catches which change
 
-Three rounds of blind seeding. Each seed was written by a fresh sub-agent that
+Four rounds of blind seeding. Each seed was written by a fresh sub-agent that
 saw only the text of one property and its own scratch worktree of /repo (nothing
 from /verif), and was asked for a change that breaks the property, compiles and
 passes the existing tests, with a demonstration test. I re-verified each claim
